@@ -20,8 +20,45 @@ class C20(CollProperty):
             "the writer's value. non-trivial = >= 2 recorded ticks; distinct = distinct (shapes, scripts)")
     assumptions = ["buffers are compared through the tree's own JSON value codec; list order inside added/removed is not significant"]
 
+    SPARSE_SHAPES = ("TS", "TSStr", "TSL", "TSB", "TSBB", "TSLB")      # (no set / dictionary: empty structural ticks are finding F5)
+
+    def gen_sparse(self, rng):
+        """the absolute-time (sparse) recording and its replay over a window that begins at, before or after the first entry"""
+        end = rng.choice((10, 16, 24))
+        sc = dict(window=(0, end), writers=[], probes=[], cons=[], mirrors=[], records=[], replays=[], runs=2, pairs=[],
+                  sreplays=[], srecords=[], scons=[], spairs=[])
+        times = set()
+        wid = 1
+        for _ in range(rng.randint(1, 2)):
+            shape = rng.choice(self.SPARSE_SHAPES)
+            w = coll.gen_writer(rng, wid, shape, end)
+            for off in w["script"]:
+                w["script"][off] = [o for o in w["script"][off] if o[0] != "inv"] or [["d", coll.jd(coll.gen_delta(coll.SHAPES[shape], coll.fresh(coll.SHAPES[shape]), rng))]]
+            w["run"] = 0
+            sc["writers"].append(w)
+            times |= set(int(t) for t in w["script"])
+            sc["srecords"].append(dict(key="k%d" % wid, src=wid, rid="book", run=0))
+            rid = wid * 10 + 7
+            sc["sreplays"].append(dict(id=rid, shape=shape, key="k%d" % wid, rid="book", run=1))
+            sc["scons"].append(dict(id=wid * 10 + 8, src=rid, run=1))
+            sc["srecords"].append(dict(key="k%d" % wid, src=rid, rid="again", run=1))
+            sc["spairs"].append(dict(b1="book.k%d" % wid, b2="again.k%d" % wid, cons=wid * 10 + 8, shape=shape))
+            wid += 1
+        ts = sorted(times)
+        r = rng.random()
+        if r < 0.3 or not ts:
+            s2 = 0
+        elif r < 0.65:
+            s2 = rng.choice(ts)                      # the window begins on a recorded tick
+        else:
+            s2 = min(end - 1, rng.choice(ts) + 1)     # ... or just after one (often inside a gap)
+        sc["window2"] = (s2, rng.choice((end, end, max(s2 + 1, end - 3))))
+        return sc
+
     def gen(self, seed):
         rng = random.Random(seed)
+        if random.Random(seed ^ 0x20C).random() < 0.15:
+            return dict(sc=self.gen_sparse(rng))
         end = rng.choice((8, 14, 24))
         sc = dict(window=(0, end), writers=[], probes=[], cons=[], mirrors=[], records=[], replays=[], runs=2, pairs=[])
         wid = 1
@@ -54,6 +91,10 @@ class C20(CollProperty):
         log0 = oc.parse_run(res.events, 0)
         log1 = oc.parse_run(res.events, 1)
         v, stats, known = oc.check_record_replay(sc, log0, log1)
+        if sc.get("spairs"):
+            v2, s2 = oc.check_sparse_replay(sc, log0, log1)
+            stats.update({k: stats.get(k, 0) + x for k, x in s2.items()})
+            v = v or v2
         stats["cycles"] = len(log0["cycles"]) + len(log1["cycles"])
         stats["simulated_time_us"] = sc["window"][1] * 2
         viol = dict(clause=v[0], detail=v[1]) if v else (dict(clause="known", detail=known, known=known) if known else None)
